@@ -420,17 +420,17 @@ prop('C30',
      builds=[dict(crate='vm', filters=['c30_', 'c27_tr_internal'])],
      overrides=[(r'c27_tr_internal_self$', dict(skip=True))],
      default=dict(mem=8, timeout={'quick': 900, 'thorough': 2400}, cbmc_extra=FS, unwindset=['memcmp.0:70']),
-     min_harnesses={'quick': 12, 'thorough': 12},
+     min_harnesses={'quick': 13, 'thorough': 13},
      functions_encoded=['<Normal as Verifier>::check_contract_in_inputs', '<op::BAL as Execute>::execute, ContractBalanceCtx::contract_balance', '<op::CSIZ as Execute>::execute, Interpreter::code_size, CodeSizeCtx::code_size, contract::contract_size',
-                        '<op::CROO as Execute>::execute, Interpreter::code_root, CodeRootCtx::code_root (refusal path)', '<op::CCP as Execute>::execute, Interpreter::code_copy, CodeCopyCtx::code_copy (refusal path)', '<op::TR as Execute>::execute (input check before any balance access, contract and script context)',
+                        '<op::CROO as Execute>::execute, Interpreter::code_root, CodeRootCtx::code_root (refusal path)', '<op::CCP as Execute>::execute, Interpreter::code_copy, CodeCopyCtx::code_copy (refusal path)', '<op::LDC as Execute>::execute (mode 0), Interpreter::load_contract_code, LoadContractCodeCtx::load_contract_code (refusal path)', '<op::TR as Execute>::execute (input check before any balance access, contract and script context)',
                         'PredicateStorage<D>: every StorageInspect/Mutate/Size/Read/Write method of ContractsAssets, ContractsRawCode, ContractsState and contract_state_remove_range'],
      bounds=['input set {two concrete ids} / empty, queried id symbolic among two listed and two unlisted ones', 'BAL / TR / CSIZ steps with the target listed or unlisted (harness constant), balances / code presence / amounts / gas schedule symbolic',
-             'CROO / CCP steps towards an existing but unlisted contract: destination address, code offset, length, every non-pointer register and the gas schedule symbolic; 128 bytes of initialised stack, empty heap',
+             'CROO / CCP / LDC(mode 0) steps towards an existing but unlisted contract: destination address, code offset, length, every non-pointer register and the gas schedule symbolic; 128 bytes of initialised stack, empty heap',
              'PredicateStorage: symbolic keys, offsets and values'],
      assumptions=[VM_STUBS_NOTE, 'register part of VMINV'],
-     out_of_claim=['CALL, LDC and the storage instructions (not built); the served (listed) paths of CROO and CCP', 'the rebuild of the input set at initialisation and the active-contract invariant over whole runs (argument)'],
-     level_text='Bounded model checking of the input-membership check and of the instructions using it (BAL, TR, CSIZ served and refused; CROO, CCP refused): an unlisted contract is refused with ContractNotInInputs before any balance or code is read or written (storage, registers and memory compared before/after), listed ones are served; the predicate storage refuses every contract-table operation.',
-     level_note='Trusted: Kani/CBMC/cadical, split_registers model. Partial claim (BAL, TR, CSIZ, CROO/CCP refusal, verifier, predicate storage).')
+     out_of_claim=['CALL and the storage instructions (not built); the served (listed) paths of CROO, CCP and LDC', 'the rebuild of the input set at initialisation and the active-contract invariant over whole runs (argument)'],
+     level_text='Bounded model checking of the input-membership check and of the instructions using it (BAL, TR, CSIZ served and refused; CROO, CCP, LDC refused): an unlisted contract is refused with ContractNotInInputs before any balance or code is read or written (storage, registers and memory compared before/after), listed ones are served; the predicate storage refuses every contract-table operation.',
+     level_note='Trusted: Kani/CBMC/cadical, split_registers model. Partial claim (BAL, TR, CSIZ, CROO/CCP/LDC refusal, verifier, predicate storage).')
 
 prop('C32',
      builds=[dict(crate='vm', filters=['c32_']), dict(crate='vm', filters=['c32x_'], tier='thorough')],
